@@ -15,6 +15,7 @@ import (
 	"os"
 	"strconv"
 	"strings"
+	"sync"
 	"sync/atomic"
 
 	cloudstorage "cloud.google.com/go/storage"
@@ -480,7 +481,11 @@ func (g *GcsEmu) handleGcsCopy(ctx context.Context, baseUrl HttpBaseUrl, w http.
 type uploadData struct {
 	Object storage.Object
 	Conds  cloudstorage.Conditions
-	data   []byte
+
+	// mu serialises the requests of one resumable upload (e.g. a client retry
+	// racing with the original chunk); it guards data and Object.
+	mu   sync.Mutex
+	data []byte
 }
 
 func (g *GcsEmu) handleGcsNewBucket(ctx context.Context, w http.ResponseWriter, r *http.Request, _ cloudstorage.Conditions) {
@@ -595,6 +600,8 @@ func (g *GcsEmu) handleGcsNewObjectResume(ctx context.Context, baseUrl HttpBaseU
 	}
 
 	u := found.(*uploadData)
+	u.mu.Lock()
+	defer u.mu.Unlock()
 
 	contents, err := io.ReadAll(r.Body)
 	if err != nil {
